@@ -342,6 +342,104 @@ def make_unchecked():
     return h
 
 
+def run_e2_rule():
+    """E2: the comparison function is translated from its current source
+    (vlib/py2smt.py) into a z3 formula over strings of *any* length, optional
+    streams (time-out records) and optional exit codes, and proved equivalent
+    to the documented rule; it is also proved that no input makes it raise."""
+    import time
+    import z3
+    from ddsmt import checker
+    from vlib import py2smt as P
+    t0 = time.time()
+    golden = P.Record(exit=P.OptInt('g_exit'), out=P.OptStr('g_out'),
+                      err=P.OptStr('g_err'), runtime=None)
+    run = P.Record(exit=P.OptInt('r_exit'), out=P.OptStr('r_out'),
+                   err=P.OptStr('r_err'), runtime=None)
+    io, ie = z3.Bool('ignore_out'), z3.Bool('ignore_err')
+    mo, me = P.OptStr('match_out'), P.OptStr('match_err')
+    env = {'golden': golden, 'run': run, 'ignore_out': io, 'ignore_err': ie,
+           'match_out': mo, 'match_err': me}
+    try:
+        impl, errs = P.translate(checker.matches_golden, env)
+    except P.Unsupported as e:
+        return {'status': 'UNKNOWN', 'cex': None, 'paths': 0, 'paths_ok': 0,
+                'samples': [], 'solver_checks': 0, 'solver_seconds': 0.0,
+                'engine_error': f'matches_golden left the translatable '
+                                f'subset: {e}',
+                'wall_s': round(time.time() - t0, 2)}
+
+    def stream_ok(ign, match, g, r):
+        return z3.Or(ign, z3.If(match.truthy(),
+                                z3.And(z3.Not(r.none),
+                                       z3.Contains(r.s, match.s)),
+                                P._eq(g, r)))
+
+    gf, rf = golden.fields, run.fields
+    spec = z3.And(P._eq(rf['exit'], gf['exit']),
+                  stream_ok(io, mo, gf['out'], rf['out']),
+                  stream_ok(ie, me, gf['err'], rf['err']))
+    results = []
+    cex = None
+    msg = None
+    for name, goal in (('equivalence with the documented rule',
+                        impl != spec),
+                       ('never raises (membership test on None)',
+                        z3.Or(*errs) if errs else z3.BoolVal(False))):
+        sol = z3.Solver()
+        sol.set('timeout', 120000)
+        sol.add(goal)
+        r = str(sol.check())
+        results.append({'obligation': name, 'result': r})
+        if r == 'sat' and cex is None:
+            m = sol.model()
+
+            def val(o):
+                if isinstance(o, P.OptStr):
+                    return None if z3.is_true(m.eval(o.none, True)) else \
+                        m.eval(o.s, True).as_string()
+                if isinstance(o, P.OptInt):
+                    return None if z3.is_true(m.eval(o.none, True)) else \
+                        m.eval(o.i, True).as_long()
+                return bool(z3.is_true(m.eval(o, True)))
+            cex = {'g_exit': val(golden.fields['exit']),
+                   'g_out': val(golden.fields['out']),
+                   'g_err': val(golden.fields['err']),
+                   'r_exit': val(run.fields['exit']),
+                   'r_out': val(run.fields['out']),
+                   'r_err': val(run.fields['err']),
+                   'ignore_out': val(io), 'ignore_err': val(ie),
+                   'match_out': val(mo), 'match_err': val(me)}
+            msg = f'{name}: violated'
+    unknown = [x for x in results if x['result'] not in ('sat', 'unsat')]
+    status = 'VIOLATED' if cex else ('UNKNOWN' if unknown else 'CONFIRMED')
+    return {'status': status, 'cex': cex,
+            'exc': {'type': 'Violation', 'msg': msg} if cex else None,
+            'paths': 2, 'paths_ok': 2 - len(unknown),
+            'samples': results, 'solver_checks': 2,
+            'solver_seconds': round(time.time() - t0, 2),
+            'engine_error': str(unknown) if unknown else None,
+            'queries': {'formula_size': len(str(impl))},
+            'wall_s': round(time.time() - t0, 2)}
+
+
+def replay_e2(c):
+    from ddsmt import checker
+    g = checker.RunInfo(c['g_exit'], c['g_out'], c['g_err'], 1.0)
+    r = checker.RunInfo(c['r_exit'], c['r_out'], c['r_err'], 1.0)
+    try:
+        got = checker.matches_golden(g, r, c['ignore_out'], c['ignore_err'],
+                                     c['match_out'], c['match_err'])
+    except Exception as e:
+        return f'matches_golden raised {type(e).__name__}: {e} for {c!r}'
+    want = S.accept(c['g_exit'], c['g_out'], c['g_err'], c['r_exit'],
+                    c['r_out'], c['r_err'], c['ignore_out'], c['ignore_err'],
+                    c['match_out'], c['match_err'])
+    if bool(got) != bool(want):
+        return f'matches_golden={got!r}, documented rule={want!r} for {c!r}'
+    return None
+
+
 def partitions(tier):
     m = bounds(tier)['max_str_len']
     parts = []
@@ -379,6 +477,9 @@ def partitions(tier):
                           'fn': make_invoke(m, L, u),
                           'budget_s': 150 if tier == 'quick' else 800,
                           'bounds': {'infile_len': L, 'max_str_len': m}})
+    parts.append({'name': 'e2rule', 'kind': 'E2', 'run': run_e2_rule,
+                  'budget_s': 300,
+                  'bounds': {'strings': 'unbounded', 'streams': 'optional'}})
     parts.append({'name': 'unchecked', 'fn': make_unchecked(),
                   'budget_s': 100})
     return parts
@@ -386,6 +487,8 @@ def partitions(tier):
 
 def replay(part, cex):
     try:
+        if part == 'e2rule':
+            return replay_e2(cex)
         if part.startswith('rule'):
             return replay_rule(cex)
         if part.startswith('wiring'):
